@@ -375,16 +375,21 @@ def strategies():
         typ = draw(st.sampled_from(POINTWISE))
         prec = draw(prec_s)
         prec2 = draw(st.one_of(st.just(0.), prec_s)) if typ in ("RelativeAndAbsolute", "Mixed") else None
-        mode = draw(st.sampled_from(["self", "identical", "good", "exact", "exact", "mixed", "mixed", "mixed", "lengths"]))
+        mode = draw(st.sampled_from(["self", "identical", "good", "exact", "exact", "one_bad", "one_bad", "one_bad",
+                                     "mixed", "mixed", "lengths"]))
         if mode == "exact":  # dyadic values: b +- prec is exact, the pair sits exactly on the Absolute threshold
             prec = draw(st.integers(1, 2 ** 16).map(lambda m: m / 2. ** 12))
         n = draw(st.integers(1, 12 if mode != "lengths" else 6))
         sign = draw(st.sampled_from(["any", "any", "negative", "positive"]))
         rowcls = ROWCLS if draw(st.integers(0, 2)) == 0 else ROWCLS[:10]
         rows = []
+        bad = draw(st.integers(0, n - 1))
         for i in range(n):
             if mode in ("self", "identical"):
                 cls = "identical"
+            elif mode == "one_bad":  # a single row out of tolerance, on one side: one-sided / sign errors show
+                cls = draw(st.sampled_from(["just_outside", "far", "far", "flip"])) if i == bad else draw(
+                    st.sampled_from(["identical", "within"]))
             elif mode == "good":
                 cls = draw(st.sampled_from(["identical", "within", "at", "ulp", "zero_both"]))
             elif mode == "exact":
